@@ -169,3 +169,28 @@ Definition pair_eqb (a b : string * string) : bool :=
 Definition sites_justified (justified sites : list (string * string)) : bool :=
   forallb (fun s => existsb (pair_eqb s) justified) sites.
 
+(* ---- instance consistency.  A lock is identified by (struct type, field).  That is only meaningful
+   if, inside one function, the lock operations and the accesses they are meant to guard concern ONE
+   instance: the instance expression must be rooted in a local variable, parameter or receiver.  The
+   scanner lists every mutex operation, and every access made under a locally held lock, whose instance
+   expression is re-evaluated: the result of a call (api.ircServer()), or a tracked pointer variable /
+   field that FSM.Restore swaps (i_base).  Such a site is consistent only if the function holds, at
+   that point, one of the guard locks of the pointer it re-reads (then no writer can swap it in
+   between), or the pointer is immutable; a call result never is.  Anything else must be justified
+   explicitly in Conc/GuardMap.v. *)
+Record inst_site := mkInst {
+  i_fn : string; i_what : string;
+  i_base : field;                    (* "" = result of a call *)
+  i_held : list (lock * mode)
+}.
+
+Definition inst_ok (gm : guard_map_t) (s : inst_site) : bool :=
+  match gm (i_base s) with
+  | Some (Guarded ls) => existsb (fun l => holds_mode (i_held s) l Sh) ls
+  | Some Immutable => true
+  | None => false
+  end.
+
+Definition instances_consistent (gm : guard_map_t) (justified : list (string * string)) (sites : list inst_site) : bool :=
+  forallb (fun s => inst_ok gm s || existsb (pair_eqb (i_fn s, i_what s)) justified) sites.
+
